@@ -165,6 +165,8 @@ struct FnItem {
     name: String,
     exported: bool,
     direct: bool,
+    /// a slice type appears in the parameter list
+    slice_param: bool,
     /// (path-qualified-with-crate-prefix?, preceded-by-dot?, name) of every `name(` in the body
     calls: Vec<(bool, String)>,
 }
@@ -296,7 +298,15 @@ fn scan_items(t: &[Tok], raw_attr_text: &dyn Fn(usize, usize) -> String, pos: &[
                             }
                         }
                     }
-                    out.fns.push(FnItem { file_mod: file_mod.to_string(), name: name.to_string(), exported, direct, calls });
+                    let slice_param = match hdr.iter().position(|x| is(x, '(')).filter(|&q| q > k) {
+                        Some(q) => {
+                            let abs = start + q;
+                            let close = matching(t, abs);
+                            t[abs..close].iter().any(|x| is(x, '['))
+                        }
+                        None => false,
+                    };
+                    out.fns.push(FnItem { file_mod: file_mod.to_string(), name: name.to_string(), exported, direct, slice_param, calls });
                 }
             }
             Some(("mod", k)) => {
@@ -482,11 +492,11 @@ fn main() {
         }
     }
 
-    let mut listed: Vec<(String, String, bool)> = Vec::new();
+    let mut listed: Vec<(String, String, bool, bool)> = Vec::new();
     for (_, (_, fs)) in &scans {
         for f in &fs.fns {
             if f.exported && marked.contains(&(f.file_mod.clone(), f.name.clone())) {
-                let e = (f.file_mod.clone(), f.name.clone(), f.direct);
+                let e = (f.file_mod.clone(), f.name.clone(), f.direct, f.slice_param);
                 if !listed.contains(&e) {
                     listed.push(e);
                 }
@@ -496,10 +506,10 @@ fn main() {
     listed.sort();
     let n_files = scans.len();
     let mut s = String::new();
-    writeln!(s, "/// generated by build.rs from {src}: (module path of the defining file, fn name, body contains `syscall!(` itself)").unwrap();
-    writeln!(s, "pub const SCANNED: &[(&str, &str, bool)] = &[").unwrap();
-    for (m, n, d) in &listed {
-        writeln!(s, "    ({m:?}, {n:?}, {d}),").unwrap();
+    writeln!(s, "/// generated by build.rs from {src}: (module path of the defining file, fn name, body contains `syscall!(` itself, a slice type appears in the parameter list)").unwrap();
+    writeln!(s, "pub const SCANNED: &[(&str, &str, bool, bool)] = &[").unwrap();
+    for (m, n, d, sl) in &listed {
+        writeln!(s, "    ({m:?}, {n:?}, {d}, {sl}),").unwrap();
     }
     writeln!(s, "];").unwrap();
     writeln!(s, "pub const SCANNED_SRC: &str = {src:?};").unwrap();
